@@ -83,6 +83,7 @@ def run(chk, rounds=None):
         chk.count(res["opens"], f"concurrent-opens:{res['task']['fs']}")
         for what, msg in res["bad"][:2]:
             chk.violation(f"concurrent-open:{what}", f"[{res['task']['fs']}] {msg}", {"task": res["task"]})
+    chk.rule_extra.append("concurrent opens: one thread per product (3 products with different leader framing), 1 us switch interval, every result compared with the product opened alone")
     chk.traces(len(results))
     chk.sample({"concurrent_opens": sum(r["opens"] for r in results), "threads": 4, "switch_interval_s": 1e-6})
     return results
